@@ -2,7 +2,7 @@
    ExtrOcamlBasic only: bool, option, unit, list, prod, sumbool, sumor map to OCaml's own types
    and andb/orb to && / ||.  nat, positive, N, Z, ascii, string stay the inductive types. *)
 From Coq Require Extraction ExtrOcamlBasic.
-From Verif Require Import Base.Text Gen.GenTokens Gen.GenLegend Model.Lexer Model.SemTokens Spec.LspClass Model.Decode Gen.GenDecoders Model.Literals Model.TimeRender Model.Graph Model.Lsp Extract.LspInst Model.Cli Extract.CliInst Model.Analyzer Model.Scope Model.Rules Model.ExprKind Model.DataDecl Model.DeclRules Model.ExprParser Model.StParser Model.StInstance Model.StRender Model.LibRender Proofs.ExprInstance Proofs.StRenderProofs Proofs.LexSpell Proofs.TextRoundTrip.
+From Verif Require Import Base.Text Gen.GenTokens Gen.GenLegend Model.Lexer Model.SemTokens Spec.LspClass Model.Decode Gen.GenDecoders Model.Literals Model.TimeRender Model.DurRender Model.Graph Model.Lsp Extract.LspInst Model.Cli Extract.CliInst Model.Analyzer Model.Scope Model.Rules Model.ExprKind Model.DataDecl Model.DeclRules Model.ExprParser Model.StParser Model.StInstance Model.StRender Model.LibRender Proofs.ExprInstance Proofs.StRenderProofs Proofs.LexSpell Proofs.TextRoundTrip.
 Extraction Language OCaml.
 Extraction "model.ml"
   tok_name tok_index all_kinds
@@ -10,7 +10,7 @@ Extraction "model.ml"
   legend legend_of lsp_semantic_tokens decode_rel allowed_classes must_highlight
   decoders cascade enc8 enc16 enc1252 dec8
   integer_new try_hex try_octal try_binary fixed_parse fixed_of_integer try_from_units
-  npu_day npu_hour npu_minute npu_second npu_milli date_literal daytime address string_chars seconds_text read_back date_text date_read_back
+  npu_day npu_hour npu_minute npu_second npu_milli date_literal daytime address string_chars seconds_text read_back date_text date_read_back read_milliseconds
   reports_cycle lsp_run lsp_session cli_run
   rule_unique rule_subrange reassemble mkDecl
   rule_symbolic
